@@ -170,7 +170,13 @@ fn gen_case(c: &mut Chooser) -> Case {
         y.push_str("      schemaModuleSpecifier: \"@app/schema-types\"\n");
         tags.push("schema-module-specifier".into());
     }
-    y.push_str("      type:\n        scalarTypes:\n          Date: string\n          Url: string\n          Json: unknown\n          Big: string\n");
+    // a scalar mapped to a TypeScript type that mentions an identifier equal to a schema type name makes the schema
+    // printer declare that type under a local alias; fields of that type keep their source name in the map
+    let date_ts = *c.pick("scalarTypes.Date", &["string", "Date", "Date | string"]);
+    if date_ts != "string" {
+        tags.push(format!("scalar-mapped-to-its-namesake:{date_ts}"));
+    }
+    y.push_str(&format!("      type:\n        scalarTypes:\n          Date: {date_ts}\n          Url: string\n          Json: unknown\n          Big: string\n"));
     files.insert(if sub { "cfg/graphql.config.yaml".to_string() } else { "graphql.config.yaml".to_string() }, y.clone());
     Case { files, yaml: y, schema_out, resolvers_out, mode, tags }
 }
